@@ -13,6 +13,7 @@ ASSUMPTIONS = A_COMMON + [
     "only through the bounded harness; their contracts live in the checks of C05/C06/C09",
 ]
 EXPLANATION = 'mutate_attr stores a value of a managed attribute only after check_type accepted it (type_check=True), the generated __setattr__ and with_<attr> always pass through that check; a non-conforming value raises TypeError with the receiver unchanged'
+SUBCHECKS = [("props._c06_for_c03", __import__("props.c06", fromlist=["TARGETS"]).TARGETS)]
 FINDINGS = []
 
 
@@ -32,4 +33,6 @@ def extra_checks(ft, tier, seed):
 
 
 def find_counterexample(fn, violation, outdir):
+    if fn and ("Mutator" in fn or "ItemMethod" in fn):
+        return harness.run_json("bounded/c06.py", ["--find", fn, outdir])          # collection mutators / element helpers
     return harness.run_json("bounded/spec.py", ["--find", PROPERTY, fn or "-", outdir])
